@@ -387,14 +387,17 @@ func SplitSelfRef(p *core.Program) (*core.Program, bool) {
 
 // ---- foreach over range() -----------------------------------------------------------
 
-func rangeBlock(cmds []core.Cmd, n *int) []core.Cmd {
+func rangeBlock(cmds []core.Cmd, n *int, withEmpty bool) []core.Cmd {
 	for _, c := range cmds {
-		mapBodies(c, func(kind string, b []core.Cmd) []core.Cmd { return rangeBlock(b, n) })
+		mapBodies(c, func(kind string, b []core.Cmd) []core.Cmd { return rangeBlock(b, n, withEmpty) })
 		if c["k"] != "foreach" {
 			continue
 		}
 		e := c["e"].(core.E)
 		if e["k"] != "fn" || e["name"] != "range" {
+			continue
+		}
+		if c["empty"].(core.Cmd)["has"].(bool) != withEmpty {
 			continue
 		}
 		args := asEs(e["args"])
@@ -431,12 +434,92 @@ func rangeBlock(cmds []core.Cmd, n *int) []core.Cmd {
 }
 
 // RangeToList replaces range(<int literals>) as a foreach list by the list it
-// denotes.
-func RangeToList(p *core.Program) (*core.Program, bool) {
+// denotes; withEmpty selects the loops that have an {ifempty} part (true) or
+// the others (false).
+func RangeToList(withEmpty bool) func(p *core.Program) (*core.Program, bool) {
+	return func(p *core.Program) (*core.Program, bool) {
+		q := CloneProgram(p)
+		n := 0
+		for _, t := range q.Bundle {
+			t.Body = rangeBlock(t.Body, &n, withEmpty)
+		}
+		return q, n > 0
+	}
+}
+
+// ---- loop helpers on an outer loop variable ---------------------------------------------
+
+type loopCtx struct {
+	v    string
+	lets []core.Cmd
+}
+
+func hoistBlock(cmds []core.Cmd, stack []*loopCtx, n *int) []core.Cmd {
+	fix := func(e core.E) core.E {
+		if len(stack) == 0 {
+			return e
+		}
+		inner := stack[len(stack)-1].v
+		return mapExprDeep(e, func(x core.E) core.E {
+			if x["k"] != "fn" {
+				return x
+			}
+			name := x["name"].(string)
+			if name != "index" && name != "isFirst" && name != "isLast" {
+				return x
+			}
+			args := asEs(x["args"])
+			if len(args) != 1 || args[0]["k"] != "var" {
+				return x
+			}
+			v := args[0]["name"].(string)
+			if v == inner {
+				return x
+			}
+			for i := len(stack) - 1; i >= 0; i-- {
+				if stack[i].v == v {
+					*n++
+					h := fmt.Sprintf("%s_%s%d", v, name, *n)
+					stack[i].lets = append(stack[i].lets, core.CLetV(h, x))
+					return core.EVar(h)
+				}
+			}
+			return x
+		})
+	}
+	for _, c := range cmds {
+		mapExprs(c, fix)
+		if c["k"] == "call" {
+			for _, pa := range asCmds(c["params"]) {
+				if pa["k"] == "pv" {
+					mapExprs(pa, fix)
+				}
+			}
+		}
+		if c["k"] == "msg" {
+			hoistBlock(asCmds(c["body"]), stack, n)
+		}
+		if c["k"] == "foreach" {
+			lc := &loopCtx{v: c["var"].(string)}
+			body := hoistBlock(asCmds(c["body"]), append(stack, lc), n)
+			c["body"] = append(lc.lets, body...)
+			em := c["empty"].(core.Cmd)
+			em["body"] = hoistBlock(asCmds(em["body"]), stack, n)
+			continue
+		}
+		mapBodies(c, func(kind string, b []core.Cmd) []core.Cmd { return hoistBlock(b, stack, n) })
+	}
+	return cmds
+}
+
+// HoistOuterHelpers replaces index/isFirst/isLast applied to a loop variable
+// that is not the innermost loop's by a {let} computed at the start of that
+// outer loop's body.
+func HoistOuterHelpers(p *core.Program) (*core.Program, bool) {
 	q := CloneProgram(p)
 	n := 0
 	for _, t := range q.Bundle {
-		t.Body = rangeBlock(t.Body, &n)
+		t.Body = hoistBlock(t.Body, nil, &n)
 	}
 	return q, n > 0
 }
@@ -455,9 +538,8 @@ func hasNullSafe(e core.E) bool {
 	return false
 }
 
-// rewriteExprs applies f bottom-up to every expression of the program.
-func rewriteExprs(p *core.Program, f func(e core.E) core.E) *core.Program {
-	q := CloneProgram(p)
+// mapExprDeep applies f bottom-up to every node of e.
+func mapExprDeep(e core.E, f func(core.E) core.E) core.E {
 	var deep func(e core.E) core.E
 	deep = func(e core.E) core.E {
 		out := make(core.E, len(e))
@@ -515,6 +597,13 @@ func rewriteExprs(p *core.Program, f func(e core.E) core.E) *core.Program {
 		}
 		return f(out)
 	}
+	return deep(e)
+}
+
+// rewriteExprs applies f bottom-up to every expression of the program.
+func rewriteExprs(p *core.Program, f func(e core.E) core.E) *core.Program {
+	q := CloneProgram(p)
+	deep := func(e core.E) core.E { return mapExprDeep(e, f) }
 	var block func(cmds []core.Cmd) []core.Cmd
 	block = func(cmds []core.Cmd) []core.Cmd {
 		for _, c := range cmds {
@@ -575,6 +664,28 @@ func ParenIsNonnullNullSafe(p *core.Program) (*core.Program, bool) {
 		}
 		return e
 	})
+	return q, n > 0
+}
+
+// ParenCssNullSafe rewrites {css X, s}, X a null-safe data reference, to
+// {css X ?: null, s}.
+func ParenCssNullSafe(p *core.Program) (*core.Program, bool) {
+	q := CloneProgram(p)
+	n := 0
+	var block func(cmds []core.Cmd) []core.Cmd
+	block = func(cmds []core.Cmd) []core.Cmd {
+		for _, c := range cmds {
+			mapBodies(c, func(kind string, b []core.Cmd) []core.Cmd { return block(b) })
+			if c["k"] == "css" && c["has"].(bool) && hasNullSafe(c["e"].(core.E)) {
+				c["e"] = core.EBin("elvis", c["e"].(core.E), core.ENull())
+				n++
+			}
+		}
+		return cmds
+	}
+	for _, t := range q.Bundle {
+		t.Body = block(t.Body)
+	}
 	return q, n > 0
 }
 
